@@ -66,8 +66,26 @@ def adaptor_chain(tr: Tracer, op, max_steps=30):
                    or 'ParallelIterator' in tr_name or 'IntoParallelIterator' in tr_name
                    or '<impl [T]>::iter' in nm or 'Vec::<T, A>::iter' in nm or 'Iterator' in nm
                    or call_matches(t, 'Deref>::deref', 'Deref::deref'))
+        if not is_iter and t['args'] and call_matches(t, 'Index>::index', 'Index::index', 'SliceIndex') and len(t['args']) == 2 \
+                and 'RangeFrom<' in t['args'][1].get('ty', ''):
+            # `&v[a..]` is the sequence v without its first a elements: skip(a)
+            ro = tr.origin(t['args'][1])
+            if ro['o'] == 'rvalue' and ro['rv'].get('r') == 'aggr' and ro['rv'].get('ops'):
+                pseudo = dict(t)
+                pseudo['args'] = [t['args'][0], ro['rv']['ops'][0]]
+                chain.append(('skip', pseudo, o['bb']))
+                o = tr.origin(t['args'][0])
+                continue
         if not is_iter or not t['args']:
             break
         chain.append((last, t, o['bb']))
         o = tr.origin(t['args'][0])
     return o, chain
+
+
+IDENTITY_ADAPTORS = ('iter', 'into_iter', 'deref', 'collect', 'as_slice', 'by_ref', 'borrow', 'as_ref', 'from_iter', 'to_vec', 'into_vec')
+
+
+def significant(names):
+    """Adaptor names that change which elements are seen (materialising / borrowing steps removed)."""
+    return [n for n in names if n not in IDENTITY_ADAPTORS]
